@@ -7,7 +7,8 @@ from .common import cps
 NAMES = ['a', 'b', 'c']
 VALS = ['', 'x', 'y', 'x y', 'xy', 'x-y', 'X', 'y x',
         'x.y', 'xzy', 'x.y-z', 'xzy-z', 'x+', 'xx', '(x', 'x|y', '[x]', 'x*', '^x', 'x$',
-        'x"', "y'", '"', "'x'", 'x\\']      # ... and values that end in / consist of quotes and backslashes (escaped inside a quoted string)      # values with regular-expression metacharacters and their near misses
+        'x"', "y'", '"', "'x'", 'x\\',
+        'x\n', 'k', '\u212a']     # a value that is another one plus a final newline (regex `$`); KELVIN SIGN, which Unicode case folding equates with k (the i flag is ASCII-only)      # ... and values that end in / consist of quotes and backslashes (escaped inside a quoted string)      # values with regular-expression metacharacters and their near misses
 TEXTS = ['x', ' ', 'xy', ' \n']
 
 
